@@ -1,8 +1,10 @@
 -------------------------- MODULE Trace_LinkedControl --------------------------
 (* code -> spec: recorded executions of real HasOutputModule controllers on one *)
-(* real HasControlledBy output.  Event 1: group size n and initial observation. *)
-(* Observed per event: active (control_active per controller), cby              *)
-(* (controlled_by of the output as a name) and the client's view vactive, vcby. *)
+(* or two real HasControlledBy outputs of a node, with modules of an earlier    *)
+(* and a later node alive in the same process.  Event 1: layout code and        *)
+(* initial observation.  Observed per event: active (control_active per         *)
+(* controller), cby (controlled_by per output, as a name), the client's view    *)
+(* vactive / vcby, and foreign (the other nodes' control state is untouched).   *)
 EXTENDS LinkedControl, Json, IOUtils, TLCExt, Sequences
 Traces == JsonDeserialize(IOEnv.TRACE_FILE)
 NT == Len(Traces)
@@ -14,18 +16,18 @@ Seen(e) == e.vactive = e.active /\ e.vcby = e.cby
 
 TInit == /\ t \in 1 .. NT /\ l = 2
          /\ LET e == Traces[t][1] IN
-              /\ n = e.n /\ active = e.active /\ cby = e.cby
-              /\ active = None /\ cby = "self" /\ Seen(e)
+              /\ lay = e.lay /\ active = e.active /\ cby = e.cby /\ foreign = e.foreign
+              /\ active = [c \in Ctls |-> FALSE] /\ cby = [o \in Outs |-> "self"] /\ foreign /\ Seen(e)
 
 TStep ==
   /\ l <= Len(Traces[t])
   /\ l' = l + 1 /\ t' = t
-  /\ active' = Ev.active /\ cby' = Ev.cby
+  /\ active' = Ev.active /\ cby' = Ev.cby /\ foreign' = Ev.foreign
   /\ \/ Ev.ev = "take" /\ TakeOver(Ev.c)
      \/ Ev.ev = "upd" /\ UpdateTarget(Ev.c)
-     \/ Ev.ev = "self" /\ SelfControl
+     \/ Ev.ev = "self" /\ SelfControl(Ev.o)
   /\ Seen(Ev)
-  /\ AtMostOne' /\ NamesTheActive' /\ OutsideGroupInactive'
+  /\ AtMostOne' /\ NamesTheActive' /\ NotBuiltInactive' /\ ForeignIntact'
 
 TSpec == TInit /\ [][TStep]_<<cvars, t, l>>
 Track == TLCSet(t, IF l > TLCGet(t) THEN l ELSE TLCGet(t))
